@@ -3,10 +3,10 @@
    Conc.ConnRace.step; every state it goes through is therefore reachable in the sense of the theorems. *)
 From Coq Require Import ZArith List Bool Arith Lia.
 Import ListNotations.
-From EN Require Import Lib.Bytes Lib.Sx Conc.ConnRace.
+From EN Require Import Lib.Bytes Lib.Sx Conc.ConnRace Conc.ClientConn.
 
 (* ------------------------------------------------------------------ scheduler state *)
-Inductive csrc := SrcScope | SrcCaller | SrcTg.
+Inductive csrc := SrcScope | SrcCaller | SrcTg | SrcOuter.   (* SrcOuter: the client's connector scope (aclose) *)
 Inductive hres := HrOk | HrTimeout | HrCancel (src : csrc).
 Inductive witem := WHost | WChild (i : nat) | WTgDone (i : nat) (crashed : bool) | WDeliver.
 
@@ -73,7 +73,7 @@ Definition abort_children (c : rcfg) (d : dstate) : dstate :=
      d_bad := d_bad d1 |}.
 
 Definition swallow_of (d : dstate) : bool :=
-  match d_first d with Some SrcCaller => false | _ => true end.
+  match d_first d with Some SrcCaller | Some SrcOuter => false | _ => true end.
 
 Definition try_finish (c : rcfg) (d : dstate) : dstate :=
   if all_children_done (d_s d) then do_label c d (LHostFinish (swallow_of d)) else d.
@@ -276,6 +276,187 @@ Definition run_race (c : rcfg) (bs : list (list (Z * nat))) : sx :=
   let d1 := quiesce c fuel0 d0 in
   L (snap [] d1 :: run_batches c d1 bs).
 
+(* ------------------------------------------------------------------ client level (kind 3): Conc/ClientConn.v *)
+Inductive citem := CRace (w : witem) | CStartWait | CAclose | CDeliverOuter | CWrapResolve | CWrapWake.
+
+Record cst := {
+  c_d : dstate;                       (* race scheduler; its own queue is emptied into c_q after every item *)
+  c_k : kstate;                       (* state of the client LTS; k_race = d_s c_d *)
+  c_q : list citem;                   (* FIFO ready queue *)
+  c_wait : bool;                      (* a wait_connected() task exists *)
+  c_wrap : option (option csrc);      (* wrap future: None pending, Some None result, Some (Some src) cancelled *)
+  c_bad : bool
+}.
+
+Definition set_race (k : kstate) (r : rstate) : kstate :=
+  {| k_race := r; k_w := k_w k; k_connector := k_connector k; k_scope_used := k_scope_used k;
+     k_scope_cancel := k_scope_cancel k; k_task_cancel := k_task_cancel k; k_endpoint := k_endpoint k;
+     k_sock_closed := k_sock_closed k; k_aclosed := k_aclosed k; k_outs := k_outs k |}.
+
+Definition set_ds (d : dstate) (r : rstate) : dstate :=
+  {| d_s := r; d_rq := d_rq d; d_h := d_h d; d_c := d_c d; d_first := d_first d; d_bad := d_bad d |}.
+
+(* take what the race scheduler queued *)
+Definition drain (x : cst) (d : dstate) : cst :=
+  {| c_d := {| d_s := d_s d; d_rq := []; d_h := d_h d; d_c := d_c d; d_first := d_first d; d_bad := d_bad d |};
+     c_k := set_race (c_k x) (d_s d); c_q := c_q x ++ map CRace (d_rq d); c_wait := c_wait x; c_wrap := c_wrap x;
+     c_bad := c_bad x || d_bad d |}.
+
+Definition cpush (x : cst) (i : citem) : cst :=
+  {| c_d := c_d x; c_k := c_k x; c_q := c_q x ++ [i]; c_wait := c_wait x; c_wrap := c_wrap x; c_bad := c_bad x |}.
+Definition cset_wait (x : cst) (b : bool) : cst :=
+  {| c_d := c_d x; c_k := c_k x; c_q := c_q x; c_wait := b; c_wrap := c_wrap x; c_bad := c_bad x |}.
+Definition cset_wrap (x : cst) (w : option (option csrc)) : cst :=
+  {| c_d := c_d x; c_k := c_k x; c_q := c_q x; c_wait := c_wait x; c_wrap := w; c_bad := c_bad x |}.
+Definition cbad (x : cst) : cst :=
+  {| c_d := c_d x; c_k := c_k x; c_q := c_q x; c_wait := c_wait x; c_wrap := c_wrap x; c_bad := true |}.
+
+(* apply a label of the client LTS; the race component of the scheduler follows *)
+Definition klabel_do (c : rcfg) (x : cst) (l : klabel) : cst :=
+  match kstep c (c_k x) l with
+  | Some k => {| c_d := set_ds (c_d x) (k_race k); c_k := k; c_q := c_q x; c_wait := c_wait x; c_wrap := c_wrap x;
+                 c_bad := c_bad x |}
+  | None => cbad x
+  end.
+
+Definition call_over (x : cst) : cst :=
+  match k_w (c_k x) with WIdle => cset_wait x false | _ => x end.
+
+(* Task.cancel() on the connecting task while it is suspended in (or about to resume from) wrap_stream_socket *)
+Definition cancel_wrap (x : cst) (src : csrc) : cst :=
+  match c_wrap x with
+  | None => cpush (cset_wrap x (Some (Some src))) CWrapWake
+  | Some None => cset_wrap x (Some (Some src))          (* _must_cancel: the queued wake-up raises instead *)
+  | Some (Some _) => x
+  end.
+
+Definition cancel_conn_task (c : rcfg) (x : cst) (src : csrc) : cst :=
+  match k_w (c_k x) with
+  | WRace => drain x (match d_h (c_d x) with
+                      | Some HrOk => set_h (c_d x) (Some (HrCancel src))
+                      | _ => cancel_host (c_d x) src
+                      end)
+  | WWrap _ => cancel_wrap x src
+  | _ => x
+  end.
+
+(* the connecting task leaves the race in the step in which the race's host finished *)
+Definition after_race (c : rcfg) (x : cst) : cst :=
+  match k_w (c_k x), r_result (d_s (c_d x)) with
+  | WRace, Some (ResSock _) => cpush (cset_wrap (klabel_do c x (KRaceDone false)) None) CWrapResolve
+  | WRace, Some ResCancelled =>
+      call_over (klabel_do c x (KRaceDone (match d_first (c_d x) with Some SrcOuter => true | _ => false end)))
+  | WRace, Some _ => call_over (klabel_do c x (KRaceDone false))
+  | _, _ => x
+  end.
+
+Definition cprocess (c : rcfg) (x : cst) (i : citem) : cst :=
+  match i with
+  | CRace w => after_race c (drain x (process c (c_d x) w))
+  | CStartWait =>
+      let x1 := klabel_do c x KBegin in
+      match k_w (c_k x1) with
+      | WRace => after_race c (drain x1 (process c (set_h (c_d x1) (Some HrOk)) WHost))
+      | _ => call_over x1
+      end
+  | CAclose =>
+      let had := k_connector (c_k x) in
+      let x1 := klabel_do c x KAclose in
+      if had then
+        match k_w (c_k x1) with
+        | WRace | WWrap _ => cpush (cancel_conn_task c x1 SrcOuter) CDeliverOuter
+        | _ => x1
+        end
+      else x1
+  | CDeliverOuter =>
+      match k_w (c_k x) with
+      | WRace | WWrap _ => cpush (cancel_conn_task c x SrcOuter) CDeliverOuter
+      | _ => x
+      end
+  | CWrapResolve =>
+      match k_w (c_k x), c_wrap x with
+      | WWrap _, None => cpush (cset_wrap x (Some None)) CWrapWake
+      | _, _ => x
+      end
+  | CWrapWake =>
+      match k_w (c_k x), c_wrap x with
+      | WWrap _, Some None => call_over (klabel_do c x KWrapDone)
+      | WWrap _, Some (Some src) =>
+          call_over (klabel_do c x (KWrapCancel (match src with SrcOuter => true | _ => false end)))
+      | _, _ => x
+      end
+  end.
+
+Fixpoint cquiesce (c : rcfg) (fuel : nat) (x : cst) : cst :=
+  match fuel with
+  | 0 => cbad x
+  | S f => match c_q x with
+           | [] => x
+           | i :: q => cquiesce c f (cprocess c {| c_d := c_d x; c_k := c_k x; c_q := q; c_wait := c_wait x;
+                                                   c_wrap := c_wrap x; c_bad := c_bad x |} i)
+           end
+  end.
+
+Definition capply_ev (c : rcfg) (pos : nat) (x : cst) (ev : Z * nat) : cst * bool :=
+  let '(code, arg) := ev in
+  match code with
+  | 0%Z | 1%Z | 2%Z | 3%Z =>
+      match k_w (c_k x), (if Z.eqb code 3 then c_q x else []) with
+      | WRace, [] => let '(d, f) := apply_ev c pos (c_d x) ev in (drain x d, f)
+      | _, _ => (x, false)
+      end
+  | 4%Z =>
+      if c_wait x then
+        let x1 := klabel_do c x KCancelTask in
+        (match k_w (c_k x1) with
+         | WRace => drain x1 (cancel_host (c_d x1) SrcCaller)
+         | WWrap _ => cancel_wrap x1 SrcCaller
+         | _ => x1
+         end, true)
+      else (x, false)
+  | 5%Z => (cpush x CAclose, true)
+  | 6%Z => if c_wait x then (x, false) else (cpush (cset_wait (klabel_do c x KWait) true) CStartWait, true)
+  | _ => (cbad x, false)
+  end.
+
+Fixpoint capply_batch (c : rcfg) (pos : nat) (x : cst) (b : list (Z * nat)) : cst * list bool :=
+  match b with
+  | [] => (x, [])
+  | ev :: b' =>
+      let '(x1, f) := capply_ev c pos x ev in
+      let '(x2, fs) := capply_batch c (S pos) x1 b' in
+      (x2, f :: fs)
+  end.
+
+Definition wout_code (o : wout) : Z :=
+  match o with WOk => 0 | WClosed => 1 | WCancelled => 2 | WErr => 3 | WReenter => 4 | WCrash => 5 end%Z.
+
+Definition csnap (flags : list bool) (x : cst) : sx :=
+  if c_bad x then L [A (-7)]
+  else
+    let k := c_k x in
+    L [L (map of_bool flags); L (map of_nat (r_created (k_race k))); L (map of_nat (sort_nat (kopen k)));
+       L (map (fun ob => L [A (wout_code (fst ob)); of_bool (snd ob)]) (k_outs k));
+       of_bool (c_wait x);
+       of_bool (match k_endpoint k with Some _ => true | None => false end);
+       of_bool (if k_connector k then false
+                else match k_endpoint k with None => true | Some _ => k_sock_closed k end)].
+
+Fixpoint crun_batches (c : rcfg) (x : cst) (bs : list (list (Z * nat))) : list sx :=
+  match bs with
+  | [] => []
+  | b :: bs' =>
+      let '(x1, flags) := capply_batch c 0 x b in
+      let x2 := cquiesce c fuel0 x1 in
+      csnap flags x2 :: crun_batches c x2 bs'
+  end.
+
+Definition run_client (c : rcfg) (bs : list (list (Z * nat))) : sx :=
+  let d0 := {| d_s := init c; d_rq := []; d_h := None; d_c := map (fun _ => None) (c_addrs c);
+               d_first := None; d_bad := false |} in
+  let x0 := {| c_d := d0; c_k := kinit c; c_q := []; c_wait := false; c_wrap := None; c_bad := false |} in
+  L (csnap [] x0 :: crun_batches c x0 bs).
+
 (* ------------------------------------------------------------------ sequential _create_connection_impl *)
 Record qstate := { q_st : cc_st; q_open : list nat; q_res : option resume (* resolved, wake-up queued *) }.
 
@@ -382,6 +563,7 @@ Definition run (x : sx) : sx :=
       match kind with
       | 1%Z => run_race {| c_addrs := reorder la; c_locals := lo; c_delay := Z.eqb delay 1 |} bs
       | 0%Z => run_seq la lo bs
+      | 3%Z => run_client {| c_addrs := reorder la; c_locals := lo; c_delay := Z.eqb delay 1 |} bs
       | _ => bad_input
       end
   | _ => bad_input
